@@ -81,7 +81,8 @@ Read(c, i, n) ==
         IN IF cand = {} THEN "unset"
            ELSE LET a == CHOOSE x \in cand : \A y \in cand : y <= x
                     k == Index(Assocs[a].skeys, n)
-                IN Read(Tgt(a), bwd[a][i][1], Assocs[a].tkeys[k])
+                    v == Read(Tgt(a), bwd[a][i][1], Assocs[a].tkeys[k])
+                IN IF v = "absent" THEN "unset" ELSE v     \* the referred instance lost its identifying attribute
     ELSE val[c][i][n]
 
 -----------------------------------------------------------------------------
@@ -148,7 +149,8 @@ IdsOK(c, pos, kw, ids, g2) ==
        /\ \A j \in vis : ids[j] # "u:0" /\ ids[j] \notin used
        /\ \A j, k \in vis : ids[j] = ids[k] => j = k
        /\ GenKind # "uuid" => \A j \in vis : \E k \in (gen + 1)..g2 : ids[j] = GenId(k)
-       /\ (pk # "" /\ vis # {}) => ids[Min(vis)] = pk
+       \* a peeked id is the next one drawn (when no explicitly supplied slot may have taken it)
+       /\ (pk # "" /\ vis = DOMAIN slots /\ vis # {}) => ids[1] = pk
 
 \* the generator draws one id per slot, in attribute order (what the code does)
 New(c, pos, kw) ==
@@ -353,7 +355,8 @@ RefReadOK == \A a \in AIdx : \A s \in Live(Src(a)) :
                 => \A k \in DOMAIN Assocs[a].skeys :
                       Read(Src(a), s, Assocs[a].skeys[k]) =
                          IF bwd[a][s] = <<>> THEN "unset"
-                         ELSE Read(Tgt(a), bwd[a][s][1], Assocs[a].tkeys[k])
+                         ELSE LET v == Read(Tgt(a), bwd[a][s][1], Assocs[a].tkeys[k])
+                              IN IF v = "absent" THEN "unset" ELSE v
 
 \* defaulted ids are fresh and never null
 FreshIds == "u:0" \notin used /\ Cardinality(used) <= gen
